@@ -6,7 +6,7 @@ from .. import scenes, obs, oracles
 ID, NUM, LEVEL = 'C18', 18, 'exploration'
 RULE = ('Evaluation = one argument of the real wmo.perc2okta / okta2code / height2code. perc2okta(100*n/m and '
         'n/m*100): 0 iff n=0, 8 iff n=m, else the integer nearest to 8n/m (exact integer arithmetic; either '
-        'neighbour at an exact half) clipped to 1..7, non-decreasing in n, scalar == array form, values outside '
+        'neighbour at an exact half) clipped to 1..7, non-decreasing in n, scalar == array form, independent of the numeric dtype of the input (8/16/32/64-bit (un)signed ints, float16/32/64), input array left untouched, values outside '
         '[0,100] (scalar or one array element) -> AmpycloudError. okta2code: table for 0..9, other ints and '
         'non-integer types -> AmpycloudError (numpy ints and bool observed, not judged). height2code: 3 digits, '
         'equals floor(h/100) up to 10000 ft and floor(h/1000)*10 above, 100*int(code) <= h, non-decreasing. '
@@ -14,7 +14,7 @@ RULE = ('Evaluation = one argument of the real wmo.perc2okta / okta2code / heigh
         'plus +-1..3 ulp neighbours of every multiple of 100 ft (<=10000) and of 1000 ft, integers -2..11 and '
         'non-integer types. Distinct by construction (enumeration).')
 ASSUMPTIONS = ['exact half-okta ties accept both neighbours (the documentation and numpy rounding disagree there)']
-REQUIRED = ['perc2okta_pairs', 'perc2okta_scalar', 'half_okta_tie', 'out_of_range', 'okta2code', 'height_grid',
+REQUIRED = ['perc2okta_dtypes', 'perc2okta_pairs', 'perc2okta_scalar', 'half_okta_tie', 'out_of_range', 'okta2code', 'height_grid',
             'height_boundary_neighbours'] + ['okta%d' % i for i in range(9)]
 MMAX = {'quick': 3000, 'thorough': 10000}
 EXHAUSTIVE = {'quick': 'all percentages n/m*100 with 0<=n<=m<=3000; 0.5-ft height grid over [0,1e5); ints -2..11',
@@ -28,6 +28,7 @@ def plan(tier, seed):
     for j in range(nchunks):
         out.append({'fam': 'perc', 'lo': 1 + j, 'step': nchunks, 'M': M, 'i': j})
     out.append({'fam': 'okta2code', 'i': 100})
+    out.append({'fam': 'dtypes', 'i': 102})
     out.append({'fam': 'range', 'i': 101, 's': seed})
     for j in range(40):
         out.append({'fam': 'hgrid', 'lo': j * 2500.0, 'hi': (j + 1) * 2500.0, 'i': 200 + j})
@@ -62,8 +63,14 @@ def check(desc):
         for m in range(desc['lo'], desc['M'] + 1, desc['step']):
             ns = np.arange(m + 1)
             for form, vals in (('100*n/m', 100 * ns / m), ('n/m*100', ns / m * 100)):
+                keep = vals.copy()
                 got = wmo.perc2okta(vals)
                 n_ev += m + 1
+                if not np.array_equal(vals, keep):
+                    oracles.V(viol, 'C18', 'perc2okta modifies the array it is given', m=m, form=form)
+                    vals = keep
+                elif m % 97 == 0 and not np.array_equal(wmo.perc2okta(vals), got):
+                    oracles.V(viol, 'C18', 'two calls on the same array disagree', m=m, form=form)
                 if not (isinstance(got, np.ndarray) and got.shape == vals.shape and got.dtype.kind == 'i'):
                     oracles.V(viol, 'C18', 'perc2okta array form: wrong type/shape', m=m, got=repr(got)[:80])
                     continue
@@ -99,6 +106,32 @@ def check(desc):
             if sample is None:
                 sample = {'workload': 'perc2okta', 'm': m, 'oktas_for_n_0..m': wmo.perc2okta(100 * np.arange(m + 1) / m).tolist()[:40]}
         tags.add('perc2okta_pairs')
+    elif fam == 'dtypes':
+        # integral percentages given as arrays / scalars of every common numeric dtype, lists and tuples
+        tags.add('perc2okta_dtypes')
+        ref = None
+        for m in (1, 2, 4, 5, 8, 10, 16, 20, 25, 50, 100):
+            ns = np.arange(m + 1)
+            percs = (100 * ns) // m
+            exact = (100 * ns) % m == 0
+            base = wmo.perc2okta(percs[exact].astype(float))
+            for dt in (np.uint8, np.int8, np.uint16, np.int16, np.int32, np.int64, np.uint64, np.float32, np.float16):
+                arr = percs[exact].astype(dt)
+                keep = arr.copy()
+                got = wmo.perc2okta(arr)
+                n_ev += len(arr)
+                if not np.array_equal(got, base):
+                    oracles.V(viol, 'C18', 'perc2okta depends on the dtype of the input array', dtype=np.dtype(dt).name, m=m,
+                              percs=arr.tolist(), got=np.asarray(got).tolist(), expected=base.tolist())
+                if not np.array_equal(arr, keep):
+                    oracles.V(viol, 'C18', 'perc2okta modifies its input array', dtype=np.dtype(dt).name)
+                for v, e in zip(arr[:6], base[:6]):
+                    g1 = wmo.perc2okta(v) if isinstance(v, (int, float)) else wmo.perc2okta(np.array([v]))
+                    n_ev += 1
+                    if int(np.asarray(g1)[0]) != int(e):
+                        oracles.V(viol, 'C18', 'perc2okta of a one-element array of another dtype', dtype=np.dtype(dt).name,
+                                  val=float(v), got=int(np.asarray(g1)[0]), expected=int(e))
+        sample = {'workload': 'perc2okta dtypes', 'dtypes': ['uint8', 'int8', 'uint16', 'int16', 'int32', 'int64', 'uint64', 'float32', 'float16']}
     elif fam == 'okta2code':
         table = {0: 'NCD', 1: 'FEW', 2: 'FEW', 3: 'SCT', 4: 'SCT', 5: 'BKN', 6: 'BKN', 7: 'BKN', 8: 'OVC', 9: None}
         for k in range(-2, 12):
